@@ -3,6 +3,9 @@ package main
 import (
 	"encoding/json"
 	"fmt"
+	"slices"
+	"strconv"
+	"strings"
 
 	"github.com/emirpasic/gods/v2/containers"
 	"github.com/emirpasic/gods/v2/lists/arraylist"
@@ -13,6 +16,10 @@ import (
 	"github.com/emirpasic/gods/v2/queues/arrayqueue"
 	"github.com/emirpasic/gods/v2/queues/circularbuffer"
 	"github.com/emirpasic/gods/v2/queues/linkedlistqueue"
+	"github.com/emirpasic/gods/v2/queues/priorityqueue"
+	"github.com/emirpasic/gods/v2/sets/hashset"
+	"github.com/emirpasic/gods/v2/sets/treeset"
+	"github.com/emirpasic/gods/v2/trees/binaryheap"
 	"github.com/emirpasic/gods/v2/sets/linkedhashset"
 	"github.com/emirpasic/gods/v2/stacks/arraystack"
 	"github.com/emirpasic/gods/v2/stacks/linkedliststack"
@@ -47,7 +54,7 @@ func mkNested(i int) any {
 // serialised and printed. Nothing is compared: the monitors of the hostile world (panic, termination,
 // output) apply, and a call that blocks for ever stops the process (Go's deadlock detector), which the
 // driver reports from the run's plan.
-func nestedProbe(i int) {
+func nestedProbe(o *Oracle, i int) {
 	vals := nestedValues(i)
 	var outers []any
 	for _, kind := range []string{"hashmap", "treemap", "linkedhashmap", "redblacktree", "avltree", "btree"} {
@@ -84,4 +91,157 @@ func nestedProbe(i int) {
 		_ = c.(fmt.Stringer).String()
 		_ = c.(containers.Container[any]).Values()
 	}
+	pointerValuesProbe(o, i)
+}
+
+// sval: a value type whose String method is on the pointer receiver and dereferences it. fmt prints a nil
+// *sval as <nil> (it guards Stringer calls on nil receivers); containers of such pointers, holding nil,
+// are printed, serialised and searched by nestedProbe.
+type sval struct{ X int }
+
+type nilReceiver struct{}
+
+func (s *sval) String() string {
+	if s == nil {
+		panic(nilReceiver{}) // (what a dereference would do; fmt recovers from it and prints <nil>)
+	}
+	return "sval" + strconv.Itoa(s.X)
+}
+
+func pointerValuesProbe(o *Oracle, i int) {
+	defer func() {
+		if r := recover(); r != nil {
+			if _, ok := r.(nilReceiver); !ok {
+				panic(r)
+			}
+			o.Fail("C17", "panic", "a container holding a nil pointer whose type has a pointer-receiver String method: String()/ToJSON() called that method on the nil pointer outside fmt's guard (a method that dereferences its receiver panics)")
+		}
+	}()
+	vals := []*sval{{X: i}, nil, {X: 2}, nil}
+	var outers []any
+	for _, kind := range []string{"hashmap", "treemap", "linkedhashmap", "redblacktree", "avltree", "btree"} {
+		m := newKVV[string, *sval](kind, 3+i%3, strings.Compare)
+		for j, v := range vals {
+			m.Put("k"+string(rune('a'+j)), v)
+		}
+		m.Get("kb")
+		outers = append(outers, m)
+	}
+	l1, l2, l3 := arraylist.New[*sval](vals...), doublylinkedlist.New[*sval](vals...), singlylinkedlist.New[*sval](vals...)
+	for _, l := range []interface {
+		Contains(...*sval) bool
+		IndexOf(*sval) int
+	}{l1, l2, l3} {
+		l.Contains(nil)
+		l.IndexOf(nil)
+		l.IndexOf(vals[2])
+	}
+	hs := linkedhashset.New[*sval](vals...)
+	hs.Contains(nil)
+	st, q, ring := arraystack.New[*sval](), linkedlistqueue.New[*sval](), circularbuffer.New[*sval](3)
+	for _, v := range vals {
+		st.Push(v)
+		q.Enqueue(v)
+		ring.Enqueue(v)
+	}
+	outers = append(outers, l1, l2, l3, hs, st, q, ring)
+	for _, c := range outers {
+		c.(jsonIO).ToJSON()
+		_ = c.(fmt.Stringer).String()
+	}
+}
+
+// cm: an element type whose JSON methods are on the pointer receiver (encoding/json uses them for
+// addressable values only: slice elements are, boxed copies and map values are not).
+type cm struct{ A int }
+
+func (c *cm) MarshalJSON() ([]byte, error) { return []byte(`"cm:` + strconv.Itoa(c.A) + `"`), nil }
+func (c *cm) UnmarshalJSON(b []byte) error {
+	var s string
+	if err := json.Unmarshal(b, &s); err != nil {
+		return err
+	}
+	if !strings.HasPrefix(s, "cm:") {
+		return fmt.Errorf("not a cm: %q", s)
+	}
+	n, err := strconv.Atoi(s[3:])
+	c.A = n
+	return err
+}
+
+type cmContainer interface {
+	containers.Container[cm]
+	jsonIO
+}
+
+// customMarshalerProbe (C11): every value container over cm elements must write what json.Marshal writes
+// for the slice of its values (the elements' own MarshalJSON) and read it back into an equal container.
+func customMarshalerProbe(o *Oracle, salt int) {
+	byA := func(a, b cm) int { return a.A - b.A }
+	mk := map[string]func() (cmContainer, func(cm)){
+		"arraylist":        func() (cmContainer, func(cm)) { c := arraylist.New[cm](); return c, func(v cm) { c.Add(v) } },
+		"singlylinkedlist": func() (cmContainer, func(cm)) { c := singlylinkedlist.New[cm](); return c, func(v cm) { c.Add(v) } },
+		"doublylinkedlist": func() (cmContainer, func(cm)) { c := doublylinkedlist.New[cm](); return c, func(v cm) { c.Add(v) } },
+		"hashset":          func() (cmContainer, func(cm)) { c := hashset.New[cm](); return c, func(v cm) { c.Add(v) } },
+		"linkedhashset":    func() (cmContainer, func(cm)) { c := linkedhashset.New[cm](); return c, func(v cm) { c.Add(v) } },
+		"treeset":          func() (cmContainer, func(cm)) { c := treeset.NewWith[cm](byA); return c, func(v cm) { c.Add(v) } },
+		"arraystack":       func() (cmContainer, func(cm)) { c := arraystack.New[cm](); return c, c.Push },
+		"linkedliststack":  func() (cmContainer, func(cm)) { c := linkedliststack.New[cm](); return c, c.Push },
+		"arrayqueue":       func() (cmContainer, func(cm)) { c := arrayqueue.New[cm](); return c, c.Enqueue },
+		"linkedlistqueue":  func() (cmContainer, func(cm)) { c := linkedlistqueue.New[cm](); return c, c.Enqueue },
+		"circularbuffer":   func() (cmContainer, func(cm)) { c := circularbuffer.New[cm](8); return c, c.Enqueue },
+		"binaryheap":       func() (cmContainer, func(cm)) { c := binaryheap.NewWith[cm](byA); return c, func(v cm) { c.Push(v) } },
+		"priorityqueue":    func() (cmContainer, func(cm)) { c := priorityqueue.NewWith[cm](byA); return c, c.Enqueue },
+	}
+	for _, kind := range sortedKeys(mk) {
+		c, add := mk[kind]()
+		n := 1 + derive(salt, 3, 5)
+		for i := 0; i < n; i++ {
+			add(cm{A: derive(salt, 10+i, 50)})
+		}
+		o.Kind = kind
+		b, err := c.ToJSON()
+		if err != nil || !json.Valid(b) || topKind(b) != "array" {
+			o.Fail("C11", "custom-marshaler-tojson", "%s of elements with pointer-receiver JSON methods: ToJSON gives %s, %v", kind, b, err)
+			return
+		}
+		vals := c.Values()
+		want, _ := json.Marshal(vals)
+		mb, err := json.Marshal(c)
+		if err != nil || !sameDocument(b, mb, kind == "hashset") {
+			o.Fail("C11", "marshal-differs", "%s of elements with pointer-receiver JSON methods: ToJSON %s, json.Marshal(container) %s (%v)", kind, b, mb, err)
+			return
+		}
+		if unordered := kind == "hashset" || kind == "arraystack" || kind == "linkedliststack" || kind == "binaryheap" || kind == "priorityqueue"; !sameDocument(b, want, unordered) {
+			// (the stacks write their own orientation, the heaps their array, the hash set any order: multisets there)
+			o.Fail("C11", "custom-marshaler-tojson", "%s: ToJSON %s, json.Marshal(Values()) %s: the elements' own MarshalJSON was not used", kind, b, want)
+			return
+		}
+		f, _ := mk[kind]()
+		if err := loadVariantRaw(f, salt, b); err != nil {
+			o.Fail("C11", "restart-load-error", "%s of elements with pointer-receiver JSON methods: loading its own ToJSON output %s failed: %v", kind, b, err)
+			return
+		}
+		g, w := fmt.Sprint(f.Values()), fmt.Sprint(vals)
+		if kind == "hashset" {
+			gs, ws := slices.Clone(f.Values()), slices.Clone(vals)
+			slices.SortFunc(gs, byA)
+			slices.SortFunc(ws, byA)
+			g, w = fmt.Sprint(gs), fmt.Sprint(ws)
+		}
+		if g != w || f.Size() != c.Size() {
+			o.Fail("C11", "restart-content", "%s of elements with pointer-receiver JSON methods: reloading %s gives %s, want %s", kind, b, g, w)
+			return
+		}
+	}
+}
+
+func loadVariantRaw(c jsonIO, variant int, b []byte) error {
+	switch variant % 3 {
+	case 0:
+		return c.FromJSON(b)
+	case 1:
+		return c.UnmarshalJSON(b)
+	}
+	return json.Unmarshal(b, c)
 }
